@@ -38,11 +38,16 @@ for seed in seeds:
             except Exception: old = []
         json.dump(old + [rec], open(rp, 'w'), indent=1)
 st = subprocess.run(['git', '-C', '/repo', 'status', '--short'], stdout=subprocess.PIPE, text=True).stdout.strip()
-if not only:
-    with open(V + '/seeded/RESULTS.md', 'w') as f:
-        f.write('# Seeded changes vs. checks (quick tier)\n\nGenerated by tools/seed_matrix.py on %s. Every seed compiles and passes the pinned test suite (see each meta.json / confirm.json).\n\n' % time.strftime('%Y-%m-%d %H:%M'))
-        f.write('| seed | check | exit | caught by | failed obligations (first 4) |\n|---|---|---|---|---|\n')
-        for (seed, chk, rc, how, bp, bb, dt) in rows:
-            f.write('| %s | %s | %d | %s | %s |\n' % (seed, chk, rc, how, ', '.join((bp + bb)[:4])))
-        f.write('\n/repo after the run: %s\n' % ('clean' if not st else st))
+# RESULTS.md is always rebuilt from every seed's ran.json (the latest run of each seed x check pair)
+allrows = []
+for seed in seeds:
+    rp = V + '/seeded/%s/ran.json' % seed
+    if os.path.exists(rp):
+        for r in json.load(open(rp)):
+            allrows.append((seed, r['check'], r['exit_code'], r['caught_by'], r.get('obligations_failed', []), r.get('when', '')))
+with open(V + '/seeded/RESULTS.md', 'w') as f:
+    f.write('# Seeded changes vs. checks (quick tier)\n\nWritten by tools/seed_matrix.py from seeded/<id>/ran.json (latest run of each seed x check pair; %d seeds). Every seed compiles and passes the pinned test suite (see each meta.json / confirm.json).\n\n' % len(seeds))
+    f.write('| seed | check | exit | caught by | failed obligations (first 4) | run at |\n|---|---|---|---|---|---|\n')
+    for (seed, chk, rc, how, labs, when) in allrows:
+        f.write('| %s | %s | %d | %s | %s | %s |\n' % (seed, chk, rc, how, ', '.join(labs[:4]), when))
 print('repo status:', st or 'clean')
